@@ -8,4 +8,5 @@ let table : (string * (Model.sexp -> Model.sexp)) list = [
   "c13", Model.c13_check;
   "c03", Model.c03_check;
   "c03p", Model.c03p_check;
+  "c15", Model.c15_check;
 ]
